@@ -29,7 +29,7 @@ def spec_of(case):
     q = dict(TGRIDS[case["tgrid"]])
     if "pgrid" in case and case["pgrid"] != "between":
         pmin, dp, ntv = INSIDE[case["pgrid"]] if isinstance(case["pgrid"], str) else case["pgrid"]
-        q.update(P_MIN=pmin, DELTA_P=dp, DELTA_P_SAMPLE=dp, NTV=ntv)
+        q.update(P_MIN=pmin, DELTA_P=dp, DELTA_P_SAMPLE=dp * case.get("sample_stride", 1), NTV=ntv)
     s["qha"] = q
     return s
 
@@ -193,6 +193,9 @@ def overshoot_cases():
         for tg in ("t0", "t1", "t2"):
             for pg in ([0, 20.0, 41], [0, 100.0, 41], [900, 1.0, 11], [0, 5.0, 201], [-5, 25.0, 33]):
                 out.append({"data": data, "tgrid": tg, "pgrid": pg, "expect": "error"})
+        # sparse output sampling (DELTA_P_SAMPLE >> DELTA_P): the whole requested grid counts, not only the sampled pressures
+        for pg, stride in (([0, 20.0, 41], 50), ([0, 20.0, 41], 7), ([0, 5.0, 201], 300)):
+            out.append({"data": data, "tgrid": "t0", "pgrid": pg, "sample_stride": stride, "expect": "error"})
         for tg in ("hot", "t1"):
             out.append({"data": data, "tgrid": tg, "pgrid": "between", "expect": "error"})
     return out
@@ -201,7 +204,7 @@ def overshoot_cases():
 def explore(ctx):
     ctx.rule = ("3 synthetic data sets x 3 temperature grids x 4 inside pressure grids (max requested <= reach/2): every modulus "
                 "(adiabatic, isothermal, attribute spellings), compliances, 6 averages, 2 velocities and V at every (T,P) node vs an "
-                "independent cubic spline along the isotherm; pressure round trip; exact conversion of cubic-in-P fields; plus 45 "
+                "independent cubic spline along the isotherm; pressure round trip; exact conversion of cubic-in-P fields; plus 54 "
                 "overshooting grids (max requested >= 2x reach) and 6 grids whose maximum lies between the reach of the coldest and the hottest isotherm, all of which must be rejected; complete in both tiers; non-trivial = >10 quantities checked")
     ctx.assumptions = ["qha's P(T,V) and V(T,P) are trusted as a library", "tolerance: 25% of the local cell variation (DESIGN §5)"]
     inside = [{"data": dname, "tgrid": tg, "pgrid": pg} for dname in DATASETS for tg in TGRIDS if tg != "hot" for pg in INSIDE]
